@@ -452,7 +452,11 @@ def run_helpers(pe, acc, case):
                 n = sum(sizes)
                 a = r.normal(size=(n, n))
                 corr = a @ a.T
-                got = pe.obs.sort_corr(corr, list(kl), yd)
+                kl_arg = list(kl)
+                got = pe.obs.sort_corr(corr, kl_arg, yd)
+                if kl_arg != list(kl) or not np.array_equal(pe.obs.sort_corr(corr, kl_arg, yd), got):
+                    acc.fail('sort_corr:argument-changed', dict(case, kl=list(kl), sizes=list(sizes)), 'sort_corr changed the key list it was given (%s -> %s) or gives another matrix when called again with the same objects' % (list(kl), kl_arg))
+                    continue
                 pos = {}
                 ofs = 0
                 for k in kl:
